@@ -74,6 +74,8 @@ def _ops(other_grid):
     op("isel(t=[0,2])", lambda x: x.isel(t=[0, 2]))
     op("sel(t=20)", lambda x: x.sel(t=20.0))
     op("isel(t=0,n_face=[0,1])", lambda x: x.isel(t=0, n_face=[0, 1]))
+    op("isel(n_face=[3,1])", lambda x: x.isel(n_face=[3, 1]))  # not ascending: values follow the requested order, as in plain xarray
+    op("isel(n_face=[2,2,0])", lambda x: x.isel(n_face=[2, 2, 0]))  # a face requested twice
     op("ux.isel(n_node=[2],lev=1)", lambda x: x.isel(n_node=[2], lev=1), ux_only=True)  # inclusive node selection: no xarray counterpart
     op("x[0]", lambda x: x[0] if x.dims[0] not in ("n_face", "n_node", "n_edge") else (_ for _ in ()).throw(KeyError("grid dim")))
     op("mean(t)", lambda x: x.mean("t"))
